@@ -162,12 +162,32 @@ def alone_facts(hdr, workdir):
             facts[recmap[sym]] = ('sizeof', v)
         elif kind == 'p':
             facts[recmap[sym] + '.payload'] = ('payoff', v)
-    return {'facts': facts, 'tags': ds['tags'], 'macros': ms}, None
+    # C++ only: is the name an enumerator (of some enum type) or a plain integer?  (its *type* is part of its meaning)
+    kinds = {}
+    names = [sym for sym, (kind, v) in facts.items() if kind in ('enum', 'macro')]
+    if names:
+        lines = ['#include <stddef.h>', '#include <type_traits>', '#include "%s"' % hdr]
+        for n in names:
+            lines.append('extern const long long verif_k_%s = std::is_enum<decltype(%s)>::value ? 1 : 0;' % (n, n))
+        srcpp = src[:-2] + '.cpp'
+        open(srcpp, 'w').write('\n'.join(lines) + '\n')
+        rc, out, err = clang(['-x', 'c++', '-std=c++17', '-S', '-emit-llvm', '-Wno-everything', '-o', srcpp + '.ll', srcpp] + inc_args())
+        if rc == 0:
+            m2 = irparse.parse_module(open(srcpp + '.ll').read(), srcpp)
+            for name, g in m2.globals.items():
+                if name.startswith('verif_k_') and g.init is not None:
+                    kinds[name[8:]] = (g.init[1] if g.init[0] == 'c' else 0)
+        else:
+            return None, 'C++ kind unit for %s: %s' % (hdr, err[-300:])
+    return {'facts': facts, 'tags': ds['tags'], 'macros': ms, 'kinds': kinds}, None
 
 
-def assert_lines(hdr, facts, lang):
+def assert_lines(hdr, facts, lang, kinds=None):
     kw = '_Static_assert' if lang == 'c99' else 'static_assert'
     out = []
+    if lang != 'c99' and kinds:
+        for sym, k in sorted(kinds.items()):
+            out.append('static_assert((std::is_enum<decltype(%s)>::value ? 1 : 0) == %d, "%s|%s");' % (sym, k, hdr, sym))
     for sym, (kind, v) in sorted(facts.items()):
         tag = '%s|%s' % (hdr, sym)
         if kind in ('enum', 'macro'):
@@ -241,8 +261,10 @@ def run(tier, res, seed):
             if a == b:
                 continue
             for lang in LANGS:
-                text = '#include <stddef.h>\n#include "%s"\n#include "%s"\n' % (a, b) + UNDEF_SA
-                text += '\n'.join(assert_lines(a, alone[a]['facts'], lang) + assert_lines(b, alone[b]['facts'], lang)) + '\n'
+                text = '#include <stddef.h>\n' + ('#include <type_traits>\n' if lang != 'c99' else '') + \
+                    '#include "%s"\n#include "%s"\n' % (a, b) + UNDEF_SA
+                text += '\n'.join(assert_lines(a, alone[a]['facts'], lang, alone[a]['kinds']) +
+                                  assert_lines(b, alone[b]['facts'], lang, alone[b]['kinds'])) + '\n'
                 jobs.append(('%s>%s' % (a, b), lang, text))
     pair_syms = set()
     seen = set()
@@ -275,9 +297,10 @@ def run(tier, res, seed):
     jobs = []
     for oname, o in orders:
         for lang in LANGS:
-            text = '#include <stddef.h>\n' + ''.join('#include "%s"\n' % h for h in o) + UNDEF_SA
+            text = '#include <stddef.h>\n' + ('#include <type_traits>\n' if lang != 'c99' else '') + \
+                ''.join('#include "%s"\n' % h for h in o) + UNDEF_SA
             for h in o:
-                text += '\n'.join(assert_lines(h, alone[h]['facts'], lang)) + '\n'
+                text += '\n'.join(assert_lines(h, alone[h]['facts'], lang, alone[h]['kinds'])) + '\n'
             jobs.append((oname, lang, text))
     with ThreadPoolExecutor(16) as ex:
         for name, lang, rc, err in ex.map(compile_unit, jobs):
@@ -302,7 +325,7 @@ def run(tier, res, seed):
     res.extra['headers'] = hs
     res.extra['exhaustive'] = True
     res.rule = ('each of the public headers alone (C99, C++17) yields its facts (enumerator values, integer macro values, record sizes, '
-                'payload offsets, as folded by the compiler); every ordered pair of headers in both languages must compile with '
+                'payload offsets, as folded by the compiler; in C++ also whether a name is an enumerator or a plain integer); every ordered pair of headers in both languages must compile with '
                 '-Werror=macro-redefined and with every fact of both headers asserted; all headers together in directory, reverse and '
                 'VERIF_SEED-shuffled orders may only fail with conflicts already found pairwise')
     build.cleanup()
